@@ -127,6 +127,28 @@ def main(tier):
             cid = "v%d_%s" % (n, nm)
             cases.append(rel.case(cid, text))
             meta[cid] = ("b%d" % n, nm, m, base, text)
+    # the same rewritings on documents that use MACRO / PASTE (the expansion stage rebuilds the forest from the scanned
+    # one: what is immaterial when scanning must be immaterial there too)
+    import c07
+    for n, m in enumerate(docs):
+        if n % (1 if tier == "thorough" else 2):
+            continue
+        vs = [v for v in c07.variants(m["doc"], m["tx"][0], rnd) if v[0] in ("top", "nested", "url_children", "method_children")]
+        if not vs:
+            continue
+        vn, md = rnd.choice(vs)
+        try:
+            mbase, _, _ = apidoc.render(md)
+        except Exception:
+            continue
+        cases.append(rel.case("mb%d" % n, mbase))
+        for nm in (["parens", "all", "comments"] if tier == "thorough" else ["parens", rnd.choice(["all", "comments", "cr", "blank"])]):
+            text, _, _ = apidoc.render(md, style(nm, random.Random(rnd.random())))
+            if text == mbase:
+                continue
+            cid = "mv%d_%s" % (n, nm)
+            cases.append(rel.case(cid, text))
+            meta[cid] = ("mb%d" % n, nm, dict(m, doc=md), mbase, text)
     obs = harness("run", cases)
     # control runs for mismatching comment insertions: the same text with every '#'-only and '##...' comment
     # line replaced by '# c'.  If the control agrees with the canonical run, the difference is due to those
@@ -143,6 +165,10 @@ def main(tier):
         chk.evaluations += 1
         chk.traces += 1
         chk.nontrivial.add(cid.split("_", 1)[1] + json.dumps(m["doc"], sort_keys=True))
+        if cid.startswith("mv") and a["outcome"] != "ok":
+            # a macro form can be unacceptable for a reason that explicit parentheses remove (a path-bearing method
+            # after an un-parenthesised URL block inside the macro body cannot leave the macro's parenthesis)
+            continue
         if rel.result_key(a) != rel.result_key(b):
             d = rel.json_diff(a["json"], b["json"]) if a["outcome"] == b["outcome"] == "ok" else None
             sig = {"rewrite": nm, "base": a["outcome"], "variant": b["outcome"],
